@@ -222,6 +222,40 @@ def sweep16 (i : Instr) (block : UInt8) : UInt64 := Id.run do
           h := mix (mix (mix h r.reg.h.toUInt64) r.reg.l.toUInt64) (r.reg.flags.toByte &&& 0xD7).toUInt64
   return h
 
+/-- 16-bit cores, exhaustive: HL = hh:ll, every DE, both carries (2^17 cases). -/
+def sweep16xl (i : Instr) (hh ll : UInt8) (h0 : UInt64) : UInt64 := Id.run do
+  let mut h : UInt64 := h0
+  for de in [0:65536] do
+    for c in [0:2] do
+      let ar : Arch := { sweepArch with reg := { h := hh, l := ll, d := UInt8.ofNat (de / 256), e := UInt8.ofNat (de % 256),
+                                                   flags := Flags.ofByte (if c == 1 then 0xFF else 0x00) } }
+      let r := exec i 2 ar
+      h := mix (mix (mix h r.reg.h.toUInt64) r.reg.l.toUInt64) (r.reg.flags.toByte &&& 0xD7).toUInt64
+  return h
+
+/-- every L for one H: 2^25 cases -/
+def sweep16x (i : Instr) (hh : UInt8) : UInt64 := Id.run do
+  let mut h : UInt64 := 0xcbf29ce484222325
+  for ll in [0:256] do
+    h := sweep16xl i hh (UInt8.ofNat ll) h
+  return h
+
+def sweep16Instr (name : String) : Option Instr :=
+  match name with
+  | "add16" => some (.add16 .hl .de) | "adc16" => some (.adc16 .de) | "sbc16" => some (.sbc16 .de) | _ => none
+
+def cmdSweepX (t : List String) : String :=
+  match t with
+  | [name, hh] =>
+    match sweep16Instr name, parseHex hh with
+    | some i, some b => "H " ++ hexN 16 (sweep16x i (UInt8.ofNat b)).toNat
+    | _, _ => "bad-op"
+  | [name, hh, ll] =>
+    match sweep16Instr name, parseHex hh, parseHex ll with
+    | some i, some b, some l => "H " ++ hexN 16 (sweep16xl i (UInt8.ofNat b) (UInt8.ofNat l) 0xcbf29ce484222325).toNat
+    | _, _, _ => "bad-op"
+  | _ => "bad-op"
+
 def sweepInstr (name : String) : Option (String × (UInt8 → Instr) × UInt8) :=
   let alu : AluOp → Option (String × (UInt8 → Instr) × UInt8) :=
     fun op => some ("an", fun n => Instr.alu op (.imm n), 0xD7)
@@ -412,6 +446,7 @@ def handle (st : DState) (line : String) : DState × String :=
     | some a => let (txt, sz) := dasm st.cpu.arch a; (st, "A " ++ toString sz.toNat ++ " " ++ txt)
     | none => bad
   | "SW" :: rest => (st, cmdSweep rest)
+  | "SWX" :: rest => (st, cmdSweepX rest)
   | ["SWR", w, b, n] => match parseHex w, parseHex b, parseHex n with
     | some w, some b, some n => if n == 0 || 65536 % n != 0 || b ≥ n then bad else (st, sweepReg st.cpu w b n)
     | _, _, _ => bad
